@@ -144,6 +144,24 @@ for t, n, tier in [("u8", 3, "q"), ("u8", 4, "q"), ("i8", 4, "q"), ("u16", 5, "q
       f"parser == reference accumulator value, or -222 when outside the type", f"all NR1 literals of {n} bytes",
       cap_s=(3600 if tier == "ta" else 600), mem_gb=4, stubset="float", unwind=12, also=["C01"])
 
+# ---------------------------------------------------------------------------- C08 (K-conv)
+for t in ("f32", "f64"):
+    H(f"c08_q_passthrough_{t}", "C08", f"c08::passthrough_{t}", f"{t}::try_from(decimal literal) returns bit-for-bit what "
+      f"the float parser returns for the literal (incl. +-infinity for out-of-range magnitudes) and maps its error kinds "
+      f"to -222 / -121 / -120", f"all {t} bit patterns; 4 parser error kinds", cap_s=200, mem_gb=2, stubset="float",
+      sample=(t == "f32"))
+for n in (1, 2, 3, 4, 5, 6, 7, 8, 9):
+    H(f"c08_q_float_keywords_{n}", "C08", f"c08::float_keywords::<{n}, _>", f"f32/f64 from character data of {n} bytes: "
+      f"INF|INFINITY, NINF|NINFINITY, NAN, MAX|MAXIMUM, MIN|MINIMUM in any case -> the special value, anything else -104",
+      f"all 2^{8*n} byte strings of length {n}", cap_s=300, mem_gb=3, unwind=12, also=["C01"])
+for n in (1, 2, 3, 4):
+    H(f"c08_q_bool_chars_{n}", "C08", f"c08::bool_chars::<{n}, _>", f"bool from character data of {n} bytes: ON / OFF in "
+      f"any case, everything else -224", f"all byte strings of length {n}", cap_s=200, mem_gb=2, unwind=n + 3, also=["C01"])
+H("c08_q_accept_matrix", "C08", "c08::accept_matrix", "every (target, element type) pair of &[u8], &str, Arbitrary, "
+  "Character, Expression, NumericList, ChannelList, f32, f64, bool x character / suffixed / non-decimal / string / block / "
+  "expression data: Ok (with the payload unchanged) only for the documented kinds, the documented command error otherwise",
+  "3 symbolic payload bytes, any u64 non-decimal value", cap_s=600, mem_gb=4, unwind=8, also=["C01"])
+
 # ---------------------------------------------------------------------------- C12
 for n in range(1, 7):
     for l in range(0, n + 1):
@@ -505,6 +523,23 @@ PROPS["C19"] = {
                   "specs; Kani's panic/overflow checks make the same queries decide C01's totality for these iterators.",
     "level_note": "Trusted: Kani/CBMC/CaDiCaL; oracles/lists.rs (unit-tested on the repository's own list test inputs); "
                   "real lexical-core integer parsing inside.",
+}
+
+PROPS["C08"] = {
+    "bounds": "float conversion: every f32/f64 the parser can return and every parser error kind; keywords: all byte "
+              "strings of 1..9 bytes; bool: all byte strings of 1..4 bytes and every non-NaN f64 (c07_q_bool_numeric); "
+              "accept matrix: all (target, element type) pairs with 3 symbolic payload bytes",
+    "outside": "NOT APPLICABLE PART: correct rounding of decimal literals (ties, 17+ digits, subnormals, huge exponents) "
+               "is lexical-core's float parser - measured: the real parser on the 3-byte symbolic literal d.d exceeds 9 GB "
+               "without finishing - so it is a trusted contract here; what is decided is that scpi-rs returns exactly what "
+               "that parser returns; integer targets are C07; unit quantities C18; enums C20",
+    "assumptions": ["lexical_core::parse::<f32|f64> returns the correctly rounded value of the literal (contract stub)"],
+    "level_text": "Bounded model checking of scpi-rs's own conversion logic around the float parser: the parser's result "
+                  "(any float bit pattern, any error kind) is symbolic and must be handed on unchanged; keyword and ON/OFF "
+                  "recognition is decided over all byte strings of each relevant length against reference tables; the "
+                  "accept matrix enumerates every (target, element type) pair with symbolic payloads.",
+    "level_note": "Trusted: Kani/CBMC/CaDiCaL; lexical-core's float parser (stubbed by contract; the literal->float "
+                  "rounding half of C08 is not claimed); keyword tables in checks/c08.rs.",
 }
 
 # properties whose check is still being built (kept current as the work proceeds)
